@@ -87,12 +87,13 @@ func (s *socket) SendMsg(m *protocol.Message) error {
 		return protocol.ErrNoPeers
 	}
 	pq := s.noPeerQ
+	sendQ := s.sendQ
 	s.Unlock()
 
 	select {
 	case <-pq:
 		return protocol.ErrNoPeers
-	case s.sendQ <- m:
+	case sendQ <- m:
 	case <-s.closeQ:
 		return protocol.ErrClosed
 	case <-tq:
